@@ -19,6 +19,14 @@ Coargument, Matrix) and every node is compared with its prediction:
        Cofunction / Matrix = environment tensors, ZeroBaseForm = zeros -- and the result must equal
        the predicted tensor exactly (Fractions).  Both the object as returned and
        expand_derivatives(object) are assembled.
+  (iii) weighted sums (spec actions WSum, Repl; runs "sums-*" with SumMode = TRUE): three-component
+       FormSums with pairwise different weights over components of different kinds (Form, Cofunction,
+       Matrix, Action, Adjoint) in every order, followed by derivative / action / adjoint / replace;
+       the spec also predicts which component derivatives vanish (Vanish) and TLC checks that the
+       derivative of the sum is the weighted sum of the component derivatives (DerOfSumLinear).
+       Whatever holds a FormSum after expansion additionally goes through the passes that map over
+       integrands / components (apply_algebra_lowering, map_integrands, replace) and must keep its
+       arguments and its tensor.
 """
 
 from __future__ import annotations
@@ -64,6 +72,11 @@ SMALL_LEAVES = {1, 3, 4, 6, 7, 8, 10, 12, 13, 16, 17, 19, 21, 22, 24, 26}
 # quick tier: f, g, c; matrices (V,V) (V,W) (V,V*); forms a_VV af_VV L_V Lf_V; Coargument(V*,1); Argument(V,1)
 QUICK_LEAVES = {1, 3, 4, 7, 8, 10, 13, 16, 17, 19, 24, 26}
 LAW_INVS = ("RankOK", "Laws", "DerivativeSanity")
+SUM_INVS = ("RankOK", "DerOfSumLinear")
+ALL_SUMS = (1, 2, 3, 4)  # indices into WeightTriples
+ALL_REPLS = (1, 2, 3, 4)  # indices into ReplPairs
+# SumMode runs: components -> weighted sum of three -> one more operation
+SUM_KW = dict(weights=(4,), zeros=(2,), repls=ALL_REPLS, summode=True, compops=("act",), postmax=1)
 
 
 def _set(s):
@@ -74,10 +87,11 @@ class Job:
     """One TLC run."""
 
     def __init__(self, key, maxops, leaves=ALL_LEAVES, weights=(1, 2, 3, 4, 5), zeros=(1, 2, 3, 4, 5, 6), dercoefs=(1, 3, 4), dump=True, invs=("RankOK",), simulate=None, seed=None, mutate=None,
-                 sums=(), repls=(), summode=False, compops=("act",), postops=("act", "adj", "der", "repl"), postmax=0):
+                 sums=(), repls=(), summode=False, compops=("act",), postops=("act", "adj", "der", "repl"), postmax=0, workers=4):
         self.key, self.maxops, self.leaves, self.weights, self.zeros, self.dercoefs = key, maxops, leaves, weights, zeros, dercoefs
         self.sums, self.repls, self.summode, self.compops, self.postops, self.postmax = sums, repls, summode, compops, postops, postmax
         self.dump, self.invs, self.simulate, self.seed, self.mutate = dump, tuple(invs), simulate, seed, mutate
+        self.workers = workers
         self.res = None
 
     def run(self):
@@ -86,7 +100,7 @@ class Job:
                          sumsel=_set(self.sums), replsel=_set(self.repls), summode="TRUE" if self.summode else "FALSE",
                          compops="{" + ", ".join(f'"{o}"' for o in self.compops) + "}",
                          postops="{" + ", ".join(f'"{o}"' for o in self.postops) + "}", postmax=self.postmax, invs="\n".join("INVARIANT " + i for i in invs))
-        kw = dict(workers=4, heap="3g", timeout=1500, env={"JAVA_TOOL_OPTIONS": JAVA_OPTS})
+        kw = dict(workers=self.workers, heap="3g", timeout=1500, env={"JAVA_TOOL_OPTIONS": JAVA_OPTS})
         if self.simulate:
             kw.update(simulate=f"num={self.simulate}", depth=self.maxops + 1, seed=self.seed)
         if self.mutate:
@@ -525,6 +539,33 @@ def contains_arityless(o, depth=0):
     return False
 
 
+def holds_formsum(o, depth=0):
+    """Is o a FormSum, or an Action / Adjoint over one?"""
+    from ufl.classes import Action, Adjoint, FormSum
+
+    if isinstance(o, FormSum):
+        return True
+    if depth > 8:
+        return False
+    if isinstance(o, Action):
+        return holds_formsum(o.left(), depth + 1) or holds_formsum(o.right(), depth + 1)
+    if isinstance(o, Adjoint):
+        return holds_formsum(o.form(), depth + 1)
+    return False
+
+
+def identity_passes():
+    """Passes that map over the integrands / components of a base form and denote the identity on
+    the multilinear map: (name, function)."""
+    from ufl.algorithms.apply_algebra_lowering import apply_algebra_lowering
+    from ufl.algorithms.map_integrands import map_integrands
+
+    return (
+        ("lowered", apply_algebra_lowering),
+        ("mapped", lambda o: map_integrands(lambda e: e, o)),
+    )
+
+
 def apply_op(E, op, objs, variant):
     """One operation of a program through the public API."""
     from ufl.classes import BaseForm, FormSum, ZeroBaseForm
@@ -655,7 +696,11 @@ def check_node(E, asm, pred, o, has_der, counters, corrupt=None):
     from ufl.algorithms.analysis import extract_coefficients
     from ufl.classes import Argument, BaseForm, Expr
 
-    kind, pargs, may, must, und, pt = pred
+    kind, pargs, may, must, und, pt = pred[:6]
+    van = pred[6] if len(pred) > 6 else []
+    if van:
+        # derivative of a three-component sum: which component derivatives vanish (coverage)
+        counters["derivative_of_sum:vanishing=" + "".join(str(x) for x in van)] = counters.get("derivative_of_sum:vanishing=" + "".join(str(x) for x in van), 0) + 1
     if und:
         counters["undefined_skipped"] = counters.get("undefined_skipped", 0) + 1
     if corrupt:
@@ -723,6 +768,19 @@ def check_node(E, asm, pred, o, has_der, counters, corrupt=None):
     if not und:
         cmp_tensor(asm, pargs, pt, o2, "tensor-expanded")
         n += 1
+    if not und and holds_formsum(o2):
+        # a weighted sum of base forms: every pass that maps over its components keeps the map
+        for name, fn in identity_passes():
+            try:
+                o3 = fn(o2)
+            except Exception as e:  # noqa: BLE001
+                raise Failure("raise", f"{name}:{type(e).__name__}", f"{name}: raises {type(e).__name__}: {str(e)[:160]}") from e
+            if isinstance(o3, BaseForm) and not arityless_zero(o3):
+                cmp_args(pargs, real_args(E, o3, "arguments-" + name), "arguments-" + name)
+                n += 1
+            cmp_tensor(asm, pargs, pt, o3, "tensor-" + name)
+            n += 1
+            counters["identity_passes_over_sums"] = counters.get("identity_passes_over_sums", 0) + 1
     return n
 
 
@@ -731,7 +789,7 @@ def replay_program(E, asm, line, variant, status, counters, corrupt=None, only=N
     status: {subtree key: "ok" | "bad" | "skip"} shared between programs.
     Returns (checks, failure or None) with failure = (node index, fingerprint, what)."""
     from ufl.algorithms import expand_derivatives
-    from ufl.classes import BaseForm, Form
+    from ufl.classes import Argument, BaseForm, Coefficient, Expr, Form
 
     ops, preds = line
     objs = [E.leaf(k, i) for k, i in E.leaves]
@@ -754,6 +812,14 @@ def replay_program(E, asm, line, variant, status, counters, corrupt=None, only=N
             # the BaseForm operators do not apply to them
             status[key] = "skip"
             counters["operand_left_the_baseform_classes"] = counters.get("operand_left_the_baseform_classes", 0) + 1
+            return checks, STOPPED
+        if code == 5 and pred[0] == "bf" and isinstance(objs[a - 1], Form) and isinstance(objs[b - 1], Expr) and not isinstance(objs[b - 1], (BaseForm, Coefficient, Argument)):
+            # the specification's guard on Act, decided on the real objects: ufl.action(Form, e) is
+            # compute_form_action, which needs e.ufl_function_space(); a sum of coefficients is accepted
+            # by Action objects only.  (Zero elimination can turn a FormSum into a plain Form, e.g. the
+            # expanded derivative of c2 + Lf_V, which the specification does not follow.)
+            status[key] = "skip"
+            counters["form_action_on_coefficient_sum"] = counters.get("form_action_on_coefficient_sum", 0) + 1
             return checks, STOPPED
         try:
             o = apply_op(E, op, objs, variant)
@@ -918,7 +984,8 @@ def conform(ctx, table, lines, tag):
     """Replay dump lines; report failures (three replay files per fingerprint)."""
     # sorted by text: programs sharing sub-programs land in the same chunk (status cache)
     lines = sorted(set(lines))
-    chunks = _chunks(lines, 250)
+    # small runs: one chunk per worker (at least 60 lines, so that sub-programs are still shared)
+    chunks = _chunks(lines, max(60, min(250, -(-len(lines) // 8))))
     results = _POOL.map(_work, chunks, chunksize=1) if _POOL is not None and len(chunks) > 1 else [_work(c) for c in chunks]
     nprog = 0
     allfails = []
@@ -960,8 +1027,14 @@ def run(ctx, args):
         "program without dead code up to the exhaustive depth and samples deeper ones with -simulate (seeded); every "
         "operation of every program is replayed on real ufl (operator notation and FormSum constructor / explicit direction) "
         "and compared with the prediction: arguments, coefficients, assembled tensor before and after expand_derivatives; "
-        "distinct non-trivial = distinct program with >= 2 operations or whose operation is action, adjoint, zero, derivative "
-        "or a zero weight"
+        "weighted sums: the operation wsum = w1*x + w2*y + w3*z (three different nodes, pairwise different weights out of "
+        "{3,-2,1/2}, {5,-3/2,-4}, {1,3,-2}, {1/2,-4,5}) and replace(A, {f: f2} / {c: c2}); the runs 'sums-*' enumerate (or "
+        "sample) the histories components (Actions of leaves, adjoints, ...) -> weighted sum in every order -> derivative / "
+        "action / adjoint / replace, so that every pattern of components that vanish under the derivative occurs (counted "
+        "per pattern, required); whatever holds a FormSum after expansion is also passed through apply_algebra_lowering "
+        "and map_integrands(identity) and must keep its arguments and tensor; "
+        "distinct non-trivial = distinct program with >= 2 operations or whose operation is action, adjoint, zero, derivative, "
+        "wsum, replace or a zero weight"
     )
     ctx.assume("real arithmetic: the conjugation convention of the adjoint is not modelled (all values are rational)")
     ctx.assume("a Form is assembled on a domain of measure 1 on which every function is constant: integral = value of the integrand with unit vectors for the arguments (vf.sem.Evaluator)")
@@ -972,6 +1045,7 @@ def run(ctx, args):
     ctx.assume("adjoint(Coargument) is the primal Argument and D_c action(c, f) is the Coefficient f: ufl represents them outside the BaseForm classes; only their map is compared, and programs that go on applying BaseForm operators to them are counted, not judged")
     ctx.assume("the derivative of a base form that is not a Form is used further only after expand_derivatives (as in ufl's tests); what it reports before expansion is compared as returned")
     ctx.assume("derivative with a coefficient direction is not applied to Actions; derivative of an Action object whose left operand holds a variational form next to other base forms is excluded (the Leibniz rule goes through compute_form_action)")
+    ctx.assume("replace is applied to base forms that contain the replaced coefficient / cofunction, by one of the same space and kind; passes that map over integrands and components (expand_derivatives, apply_algebra_lowering, map_integrands, replace) denote the identity on the multilinear map")
     ctx.assume("predictions with an entry outside the exact range of CQ.tla (|n|, d <= 20000) are not compared (counted as undefined_skipped)")
     t0 = time.time()
     seed = ctx.seed
@@ -979,8 +1053,13 @@ def run(ctx, args):
         jobs = [
             Job("laws-depth1-10leaves", 1, leaves={1, 4, 7, 10, 13, 17, 19, 22, 24, 26}, weights=(1, 4), zeros=(2,), dercoefs=(1,), dump=False, invs=LAW_INVS),
             Job("enum-depth2-12leaves", 2, leaves=QUICK_LEAVES, weights=(1, 4), zeros=(2,), dercoefs=(1, 4)),
-            Job("enum-depth1-all", 1),
-            Job("sim-depth4", 4, simulate=25, seed=seed),
+            Job("enum-depth1-all", 1, sums=(1,), repls=ALL_REPLS, workers=1),
+            Job("sim-depth4", 4, simulate=18, seed=seed, sums=(3,), repls=ALL_REPLS),
+            # weighted sums of three components: f, f2, c, c2, Lf_V and every Action of two of them; then one of
+            # derivative / action / replace (all orders of the components: every vanishing pattern)
+            Job("sums-depth5-1forms", 5, leaves={1, 2, 4, 5, 19}, sums=(1,), dercoefs=(1, 4), invs=SUM_INVS, workers=2, **SUM_KW),
+            # f, f2, c, M(V,V), a_VV, af_VV and their Actions (Matrix-Action, Matrix-Matrix, Form-coefficient)
+            Job("sums-depth4-2forms", 4, leaves={1, 2, 4, 7, 13, 16}, sums=(2,), dercoefs=(1,), invs=SUM_INVS, workers=1, **SUM_KW),
         ]
     else:
         jobs = [
@@ -988,10 +1067,16 @@ def run(ctx, args):
             Job("laws-depth1-all", 1, dump=False, invs=LAW_INVS),
             Job("enum-depth2-all", 2),
             Job("enum-depth3-6leaves", 3, leaves={1, 4, 10, 13, 19, 24}, weights=(1, 4), zeros=(4,), dercoefs=(1, 4)),
-            Job("sim-depth4", 4, simulate=300, seed=seed),
-            Job("sim-depth5", 5, simulate=250, seed=seed + 1),
+            Job("sim-depth4", 4, simulate=300, seed=seed, sums=ALL_SUMS, repls=ALL_REPLS),
+            Job("sim-depth5", 5, simulate=250, seed=seed + 1, sums=ALL_SUMS, repls=ALL_REPLS),
+            Job("enum-depth1-sums", 1, sums=ALL_SUMS, repls=ALL_REPLS),
+            Job("sums-depth5-1forms", 5, leaves={1, 2, 4, 5, 17, 19}, sums=(1, 2), dercoefs=(1, 4), invs=SUM_INVS, **SUM_KW),
+            Job("sums-depth4-2forms", 4, leaves={1, 2, 7, 10, 13, 16}, sums=(1,), dercoefs=(1,), invs=SUM_INVS, **dict(SUM_KW, compops=("act", "adj"))),
+            Job("sums-depth4-W", 4, leaves={1, 3, 4, 6, 8, 9, 15, 18, 20, 23}, sums=(4,), dercoefs=(1, 3), invs=SUM_INVS, **dict(SUM_KW, compops=("act", "adj"))),
+            Job("sums-sim-depth5", 5, simulate=40, seed=seed + 2, sums=ALL_SUMS, dercoefs=(1, 3, 4), invs=SUM_INVS,
+                **dict(SUM_KW, weights=(1, 2, 3, 4, 5), zeros=(1, 2, 3, 4, 5, 6), compops=("act", "adj", "der", "neg", "scale", "zero", "add", "sub"), postops=("act", "adj", "der", "repl", "neg", "scale", "add", "sub"), postmax=2)),
         ]
-    done = run_jobs(ctx, jobs, parallel=2)
+    done = run_jobs(ctx, jobs, parallel=3)
     print(f"  TLC: {len(jobs)} runs, {sum(j.res.distinct for j in jobs)} states, {time.time() - t0:.1f}s", flush=True)
     for j in jobs:
         if not j.res.ok:
@@ -1025,6 +1110,13 @@ def run(ctx, args):
     need = 2000 if quick else 50000
     if total < need:
         raise MachineryError(f"only {total} programs replayed (< {need})")
+    # vacuity of the weighted-sum histories: derivatives of three-component sums in which a component
+    # vanishes BEFORE one that does not (and after one, and none, and all) were replayed
+    for pat in ("100", "010", "001", "110", "101", "011", "000", "111"):
+        if not ctx.cov.get("derivative_of_sum:vanishing=" + pat):
+            raise MachineryError(f"no derivative of a weighted sum with the vanishing pattern {pat} was replayed")
+    if not ctx.cov.get("identity_passes_over_sums"):
+        raise MachineryError("no weighted sum went through the identity passes")
     ctx.cov["exhaustive"] = False  # exhaustive up to depth 2 (depth 3 on a sub-alphabet), sampled beyond
     ctx.sample({"leaves": table["leaves"][:6], "note": "dump line = [ops [[opcode,a,b,w,q,dir,z]..], predictions per op [kind,args,may,must,undefined,tensor]]"})
 
@@ -1057,7 +1149,7 @@ def replay(ctx, doc):
 def selftest(ctx):
     ctx.rule = "selftest: corrupted predictions (tensor entry, argument number, space, dual flag), a corrupted assembler and a mutated contraction in the specification must all be rejected"
     jobs = [
-        Job("selftest-enum", 1, leaves=SMALL_LEAVES),
+        Job("selftest-enum", 1, leaves=SMALL_LEAVES, sums=(1,), repls=ALL_REPLS),
         # contraction with the FIRST slot of the left operand instead of the last: the laws must fail
         Job("selftest-mutant-laws", 1, leaves=SMALL_LEAVES, dump=False, invs=LAW_INVS, mutate=("ta[Append(SubSeq(s, 1, p), k)]", "ta[<<k>> \\o SubSeq(s, 1, p)]")),
     ]
@@ -1079,6 +1171,7 @@ def selftest(ctx):
     act = pick(lambda l: l[0][0][0] == 5 and len(l[1][0][1]) == 1 and any(_q(x) for x in l[1][0][5]))
     adj = pick(lambda l: l[0][0][0] == 6 and l[1][0][1][0][1] != l[1][0][1][1][1])
     two = pick(lambda l: l[0][0][0] == 5 and len(l[1][0][1]) == 2)
+    wsm = pick(lambda l: l[0][0][0] == 9 and any(_q(x) for x in l[1][0][5]))
 
     def with_corruption(line, fn):
         return replay_program(E, _ASM, line, "ops", {}, {}, corrupt=fn)[1]
@@ -1113,6 +1206,7 @@ def selftest(ctx):
         ("predicted-argument-dual-flag", act, flip_dual),
         ("predicted-adjoint-not-swapped", adj, transpose),
         ("predicted-tensor-entry-2form", two, bump_t),
+        ("predicted-tensor-entry-weighted-sum", wsm, bump_t),
     ]:
         f = with_corruption(line, fn)
         rejected[name] = [f[1]] if f else []
@@ -1137,6 +1231,14 @@ def selftest(ctx):
     finally:
         E.ufl.action = orig_action
     rejected["mutant-action-returns-left"] = [f"{nbad2} lines rejected"] if nbad2 else []
+    # a weighted sum whose weights are paired with the wrong components must be noticed
+    orig_sw = E.sumweight
+    E.sumweight = lambda w: orig_sw(w % 3 + 1)
+    try:
+        nbad3 = sum(bool(replay_program(E, _ASM, l, "ops", {}, {})[1]) for l in lines if l[0][0][0] == 9)
+    finally:
+        E.sumweight = orig_sw
+    rejected["mutant-sum-weights-rotated"] = [f"{nbad3} lines rejected"] if nbad3 else []
     ctx.traces(len(rejected))
     ctx.evaluated(len(rejected) + 2 * len(lines))
     ctx.sample({"selftest": rejected})
